@@ -184,7 +184,10 @@ def main():
     try:
         rc = run_check(prop, tier, seed, spec, entries, ov, solver, workdir, t0, known)
     finally:
-        shutil.rmtree(workdir, ignore_errors=True)
+        if os.environ.get("VERIF_KEEP"):
+            print("kept workdir", workdir)
+        else:
+            shutil.rmtree(workdir, ignore_errors=True)
     return rc
 
 
